@@ -34,7 +34,8 @@ def calls():
             out.append({'op': op, 'file': f, 'sent': 1})
     out.append({'op': 'insert_terminals', 'file': 'f1', 'sent': 2})
     for op in ('read', 'write', 'extract', 'binarize', 'boyd_split', 'binarize_tree', 'punctuation_delete', 'analysis',
-               'read_gf_dash', 'read_gf_hash', 'heads_negra', 'heads_ptb', 'ptb_delete_traces', 'write_brackets_gf'):
+               'read_gf_dash', 'read_gf_hash', 'heads_negra', 'heads_ptb', 'ptb_delete_traces', 'write_brackets_gf',
+               'gram_cmd_mk1', 'gram_cmd_mk2'):
         out.append({'op': op, 'file': '~', 'sent': 1})
     out.append({'op': 'write', 'file': '~', 'sent': 2})
     return out
